@@ -401,26 +401,27 @@ func C13(p *core.Program, r *core.Report) {
 	r.Add("L3", "sanity: result fields are seen", p.Pos(ap.Pos()), len(fields) >= 9, fmt.Sprintf("%v", fields))
 	// L5: the pagination finders only read what Apply hands them (document and page URL)
 	nFind := 0
-	for _, call := range core.Calls(ap, func(ci ssa.CallInstruction) bool {
-		f := core.Callee(ci)
-		return f != nil && f.Name() == "FindPagination"
-	}) {
-		nFind++
-		callee := core.Callee(call)
-		for j := range call.Common().Args {
-			mods := a.ParamMods(callee, j, true)
-			var fs []string
-			for f := range mods {
-				fs = append(fs, f)
+	seenFinder := map[*ssa.Function]bool{}
+	for _, fc := range finderCalls(p, ap) {
+		for _, callee := range fc.callees {
+			if seenFinder[callee] {
+				continue
 			}
-			sort.Strings(fs)
-			if j == 0 {
-				continue // the finder's own receiver
+			seenFinder[callee] = true
+			nFind++
+			// parameters after the receiver: the document and the page URL
+			for j := 1; j <= len(fc.args) && j < len(callee.Params); j++ {
+				mods := a.ParamMods(callee, j, true)
+				var fs []string
+				for f := range mods {
+					fs = append(fs, f)
+				}
+				sort.Strings(fs)
+				r.Add("L5", fmt.Sprintf("%s leaves argument #%d untouched", core.ShortKey(callee), j), p.Pos(fc.call.Pos()), len(fs) == 0, fmt.Sprintf("fields written: %v", fs))
 			}
-			r.Add("L5", fmt.Sprintf("%s leaves argument #%d untouched", core.ShortKey(callee), j), p.Pos(call.Pos()), len(fs) == 0, fmt.Sprintf("fields written: %v", fs))
 		}
 	}
-	r.Add("L5", "both pagination finders are examined", p.Pos(ap.Pos()), nFind == 2, fmt.Sprintf("%d FindPagination calls in Apply", nFind))
+	r.Add("L5", "both pagination finders are examined", p.Pos(ap.Pos()), nFind == 2, fmt.Sprintf("%d finders called from Apply", nFind))
 	// L6: Result.URL is rendered from the caller's URL after extraction: it is the supplied URL only
 	// if nothing below the entry points writes the Options or the URL they point to (the C10
 	// result for these two regions, re-evaluated here)
